@@ -16,13 +16,53 @@ const (
 	c18Week = 7 * 86400
 )
 
-// c18Zone picks one of the fixed-offset zones; returns the location and its offset in seconds.
+// c18Shifts: the zone picked has a daylight-saving shift inside the weeks the instants range over. The local times
+// between 01:00 and 03:00 are then left out for instants and window edges (on the day of the shift they do not exist or
+// exist twice, and the configuration cannot say which is meant).
+var c18Shifts bool
+
+// c18TZ builds a zone with one shift (TZif version 1 data for time.LoadLocationFromTZData): offset before, offset
+// from the instant `at` on.
+func c18TZ(name string, before, after int, at int64) *time.Location {
+	be := func(b []byte, v int64) []byte {
+		return append(b, byte(v>>24), byte(v>>16), byte(v>>8), byte(v))
+	}
+	d := []byte{'T', 'Z', 'i', 'f', 0, 0, 0, 0, 0, 0, 0, 0, 0, 0, 0, 0, 0, 0, 0, 0}
+	d = be(d, 0) // isutcnt
+	d = be(d, 0) // isstdcnt
+	d = be(d, 0) // leapcnt
+	d = be(d, 1) // timecnt
+	d = be(d, 2) // typecnt
+	d = be(d, 8) // charcnt
+	d = be(d, at)
+	d = append(d, 1)
+	d = append(be(d, int64(before)), 0, 0)
+	d = append(be(d, int64(after)), 1, 4)
+	d = append(d, 'Z', 'Z', 'A', 0, 'Z', 'Z', 'B', 0)
+	loc, err := time.LoadLocationFromTZData(name, d)
+	if err != nil {
+		panic(err)
+	}
+	return loc
+}
+
+// c18Zone picks UTC, a fixed-offset zone or a zone with a shift on Sunday 2024-01-21 at 02:00 local time (one hour
+// forward, or one hour back).
 func c18Zone() *time.Location {
-	switch verifConc(ndInt("zone", 0, 2)) {
+	c18Shifts = false
+	switch verifConc(ndInt("zone", 0, 4)) {
 	case 1:
 		return time.FixedZone("M5", -5*3600)
 	case 2:
 		return time.FixedZone("P530", 5*3600+1800)
+	case 3:
+		verifCase("zone-shifts-forward")
+		c18Shifts = true
+		return c18TZ("Verif/Forward", -5*3600, -4*3600, time.Date(2024, time.January, 21, 7, 0, 0, 0, time.UTC).Unix())
+	case 4:
+		verifCase("zone-shifts-back")
+		c18Shifts = true
+		return c18TZ("Verif/Back", -4*3600, -5*3600, time.Date(2024, time.January, 21, 6, 0, 0, 0, time.UTC).Unix())
 	}
 	return time.UTC
 }
@@ -41,6 +81,9 @@ func c18Time(name string, weeks int, loc *time.Location) c18Instant {
 	h := ndInt(name+".h", 0, 23)
 	m := ndInt(name+".m", 0, 59)
 	s := ndInt(name+".s", 0, 59)
+	if c18Shifts {
+		verifAssume(verifAnd(h != 1, h != 2))
+	}
 	d := 7 + 7*wk + wd
 	return c18Instant{
 		t:   time.Date(2024, time.January, 7+d, h, m, s, 0, loc).UTC(),
@@ -53,6 +96,9 @@ func c18TOD(name string) (TimeOfDay, int) {
 	h := ndInt(name+".h", 0, 23)
 	m := ndInt(name+".m", 0, 59)
 	s := ndInt(name+".s", 0, 59)
+	if c18Shifts {
+		verifAssume(verifAnd(h != 1, h != 2))
+	}
 	return NewTimeOfDay(h, m, s), h*3600 + m*60 + s
 }
 
